@@ -1,0 +1,23 @@
+//go:build verif
+
+package ocsp
+
+import (
+	"crypto"
+
+	"github.com/zmap/zcrypto/encoding/asn1"
+	"github.com/zmap/zcrypto/x509"
+	"github.com/zmap/zcrypto/x509/pkix"
+)
+
+// ZVC03SigningParamsForPublicKey exposes signingParamsForPublicKey
+// (verification hook, C03).
+func ZVC03SigningParamsForPublicKey(pub interface{}, requested x509.SignatureAlgorithm) (crypto.Hash, pkix.AlgorithmIdentifier, error) {
+	return signingParamsForPublicKey(pub, requested)
+}
+
+// ZVC03GetSignatureAlgorithmFromOID exposes getSignatureAlgorithmFromOID
+// (verification hook, C03).
+func ZVC03GetSignatureAlgorithmFromOID(oid asn1.ObjectIdentifier) x509.SignatureAlgorithm {
+	return getSignatureAlgorithmFromOID(oid)
+}
